@@ -102,6 +102,9 @@ func Empty(v reflect.Value) bool {
 }
 
 func keyStr(k reflect.Value) string {
+	if k.Kind() == reflect.Float32 || k.Kind() == reflect.Float64 {
+		return fmt.Sprintf("%v", k.Interface()) // map keys are rendered with fmt's default verb (1e+10), not as decimals
+	}
 	if s, ok := Canon(k); ok {
 		return s
 	}
